@@ -173,6 +173,12 @@ func exec(op string) string {
 }
 
 // ---------------------------------------------------------------- generator
+//
+// Every random choice comes from h.R.  The op stream is nevertheless not a pure
+// function of the seed: create-successes confirm what AllocScene answered, and
+// AllocScene breaks ties between equally busy services by Go map order.  Replay
+// files are self-contained (every op carries explicit ids), so this does not
+// affect reproduction of a reported witness.
 
 type gen struct {
 	h       *hx.T
@@ -250,7 +256,103 @@ func (g *gen) syncLive(obs string) {
 	}
 }
 
-func (g *gen) oneCase(run func(string) string, nops int, malformed bool) {
+// workingSet extracts "svc" of the services considered working from a dump.
+func workingSet(obs string) map[string]bool {
+	out := map[string]bool{}
+	i := strings.Index(obs, "V=")
+	if i < 0 {
+		return out
+	}
+	for _, e := range strings.Split(obs[i+2:], ",") {
+		f := strings.Split(e, ":")
+		if len(f) == 5 && f[1] == "1" {
+			out[f[0]] = true
+		}
+	}
+	return out
+}
+
+func sceneCount(obs string) int {
+	i := strings.Index(obs, "S=")
+	if i < 0 {
+		return 0
+	}
+	rest := obs[i+2:]
+	if j := strings.IndexByte(rest, ' '); j >= 0 {
+		rest = rest[:j]
+	}
+	if rest == "" {
+		return 0
+	}
+	return strings.Count(rest, ",") + 1
+}
+
+// note records what an op reached, judged from the dumps before and after it.
+func (g *gen) note(op, before, after string) {
+	h := g.h
+	nb, na := sceneCount(before), sceneCount(after)
+	switch {
+	case strings.HasPrefix(op, "tick"):
+		wb, wa := workingSet(before), workingSet(after)
+		for k := range wb {
+			if !wa[k] {
+				h.Count("reach.tick.declared-loss")
+				if na < nb {
+					h.Count("reach.tick.loss-removed-scenes")
+				}
+				break
+			}
+		}
+	case strings.HasPrefix(op, "lost"), strings.HasPrefix(op, "wlost"):
+		if na < nb {
+			h.Count("reach.loss-removed-scenes")
+			if na > 0 {
+				h.Count("reach.loss-kept-other-scenes")
+			}
+		}
+	case strings.HasPrefix(op, "create"):
+		// the new line is not the last one of its configuration: a gap was filled
+		if na == nb+1 {
+			sid := hx.KVU64(hx.Words(op), "sid")
+			li := strings.Index(after, "L=")
+			rest := after[li+2:]
+			if j := strings.IndexByte(rest, ' '); j >= 0 {
+				rest = rest[:j]
+			}
+			for _, grp := range strings.Split(rest, ";") {
+				es := strings.Split(grp[strings.IndexByte(grp, ':')+1:], ",")
+				for i, e := range es {
+					if strings.HasSuffix(e, fmt.Sprintf("/%d", sid)) && i < len(es)-1 {
+						h.Count("reach.create.filled-a-gap")
+					}
+				}
+			}
+		}
+	case strings.HasPrefix(op, "alloc"):
+		if !strings.HasPrefix(after, "r=none") {
+			w := workingSet(after)
+			if len(w) > 1 {
+				h.Count("reach.alloc.choice-among-several-working")
+			}
+		}
+	case strings.HasPrefix(op, "req"):
+		if !strings.HasPrefix(after, "r=none") && na > 1 {
+			h.Count("reach.req.answered")
+		}
+	}
+	if na >= 6 {
+		h.Count("reach.world>=6scenes")
+	}
+}
+
+func (g *gen) oneCase(run0 func(string) string, nops int, malformed bool) {
+	last := ""
+	run := func(op string) string {
+		obs := run0(op)
+		g.note(op, last, obs)
+		last = obs
+		return obs
+	}
 	h := g.h
 	g.live, g.ended, g.pending = nil, nil, nil
 	g.nextOwn = 1000 + uint64(h.R.Intn(5))*1000
@@ -264,7 +366,7 @@ func (g *gen) oneCase(run func(string) string, nops int, malformed bool) {
 	for i := 0; i < nops; i++ {
 		var obs string
 		switch c := h.R.Intn(100); {
-		case c < 14: // allocation (placement decision)
+		case c < 13: // allocation (placement decision)
 			h.Count("op.alloc")
 			cfg := g.cfg()
 			obs = run(fmt.Sprintf("alloc cfg=%d", cfg))
@@ -276,7 +378,7 @@ func (g *gen) oneCase(run func(string) string, nops int, malformed bool) {
 					g.pending = append(g.pending, fmt.Sprintf("sid=%s cfg=%d svc=%s", f[0], cfg, f[1]))
 				}
 			}
-		case c < 34: // creation succeeded
+		case c < 40: // creation succeeded
 			if len(g.pending) > 0 && h.R.Intn(4) != 0 {
 				j := h.R.Intn(len(g.pending))
 				p := g.pending[j]
@@ -292,7 +394,7 @@ func (g *gen) oneCase(run func(string) string, nops int, malformed bool) {
 				h.Count("op.create.own-id")
 				obs = run(fmt.Sprintf("create sid=%d cfg=%d svc=%d", g.nextOwn, g.cfg(), g.svc()))
 			}
-		case c < 48: // scene end
+		case c < 53: // scene end
 			switch {
 			case len(g.live) > 0 && h.R.Intn(5) != 0:
 				h.Count("op.end.known")
@@ -304,23 +406,23 @@ func (g *gen) oneCase(run func(string) string, nops int, malformed bool) {
 				h.Count("op.end.unknown")
 				obs = run(fmt.Sprintf("end sid=%d", h.Pick(0, 7, 999999, 1<<40)))
 			}
-		case c < 58: // keep-alive
+		case c < 61: // keep-alive
 			h.Count("op.refresh")
 			obs = run(fmt.Sprintf("refresh svc=%d n=%d", 1+h.R.Intn(3), g.sceneNum()))
-		case c < 66: // time passes
+		case c < 68: // time passes
 			h.Count("op.adv")
 			obs = run(fmt.Sprintf("adv ms=%d", h.Pick(1, 999, 1000, 2999, 3000, 3001, 1+h.R.Intn(4000), 12000)))
-		case c < 74:
+		case c < 75:
 			h.Count("op.tick")
 			obs = run("tick")
-		case c < 79: // silence: k rounds of 3 s + check (the 4th declares the loss)
+		case c < 80: // silence: k rounds of 3 s + check (the 4th declares the loss)
 			k := 1 + h.R.Intn(5)
 			h.Count(fmt.Sprintf("op.silence.%d", k))
 			for j := 0; j < k; j++ {
 				run(fmt.Sprintf("adv ms=%d", h.Pick(3000, 3000, 2999, 3001, 1000)))
 				obs = run("tick")
 			}
-		case c < 85: // loss (possibly repeated)
+		case c < 84: // loss (possibly repeated)
 			s := g.svc()
 			h.Count("op.lost")
 			obs = run(fmt.Sprintf("lost svc=%d", s))
@@ -328,7 +430,7 @@ func (g *gen) oneCase(run func(string) string, nops int, malformed bool) {
 				h.Count("op.lost.repeated")
 				obs = run(fmt.Sprintf("lost svc=%d", s))
 			}
-		case c < 88:
+		case c < 86:
 			h.Count("op.wlost")
 			obs = run(fmt.Sprintf("wlost svc=%d", g.svc()))
 		case c < 98:
